@@ -146,14 +146,9 @@ def segwitV0 (S : Bytes → Bytes) (sc : Bytes) (tx : Tx) (i ht amount : Int)
 
 def intMem (x : Int) (l : List Nat) : Bool := l.any (fun n => (n : Int) == x)
 
-/-- `sig_hash.taproot` -/
-def taproot (S : Bytes → Bytes) (tx : Tx) (i : Int) (prevouts : List TxOut) (ht extFlag : Int)
+/-- `sig_hash.taproot` past its refusals: `i` an input of the transaction, `w` one of the seven types -/
+def taprootChecked (S : Bytes → Bytes) (tx : Tx) (i : Nat) (prevouts : List TxOut) (w : Nat) (extFlag : Int)
     (annex msgExt : Bytes) (pre : Option Precomputed) : R Bytes := do
-  forAll (fun o => assertCAmount o.value) prevouts
-  let i ← assertVin tx i
-  if !intMem ht Gen.SigHash.SIG_HASH_TYPES then throw .value
-  let w := ht.toNat
-  if tapSingle w ∧ i ≥ tx.vout.length then throw .value
   let acp := tapAcp w
   let allOutputs := !tapNone w && !tapSingle w
   let annexPresent := !annex.isEmpty
@@ -184,6 +179,15 @@ def taproot (S : Bytes → Bytes) (tx : Tx) (i : Int) (prevouts : List TxOut) (h
     else pure []
   pure (taggedWith S Gen.SigHash.TAG_SIGHASH
     (Gen.SigHash.EPOCH ++ ([UInt8.ofNat w] ++ (v ++ (l ++ (mid ++ (st ++ (own ++ (ann ++ (sgl ++ msgExt))))))))))
+
+/-- `sig_hash.taproot` -/
+def taproot (S : Bytes → Bytes) (tx : Tx) (i : Int) (prevouts : List TxOut) (ht extFlag : Int)
+    (annex msgExt : Bytes) (pre : Option Precomputed) : R Bytes := do
+  forAll (fun o => assertCAmount o.value) prevouts
+  let i ← assertVin tx i
+  if !intMem ht Gen.SigHash.SIG_HASH_TYPES then throw .value
+  else if tapSingle ht.toNat ∧ i ≥ tx.vout.length then throw .value
+  else taprootChecked S tx i prevouts ht.toNat extFlag annex msgExt pre
 
 /-! ### from_tx and its helpers -/
 
